@@ -64,10 +64,16 @@ package resp
 //@   loop 0:
 //@     invariant hsInv(s) && s.HLen + len(s.B) <= len(buf) && arr(s.B) == parseArr && len(s.B) <= len(buf)
 
+// C02: the header scanner runs only after the completeness check succeeded.
 //@ func parse(h, buf) n, err
-//@   props C03
+//@   props C03, C02
 //@   requires h != nil
 //@   modifies *
+//@   ghostset-at-entry hdrComplete = false
+//@   ghostset after HeadersComplete#0: hdrComplete = result
+//@   assert @C02 before parseHeaders#0: hdrComplete
+//@   replay-go whole := "HTTP/1.1 200 OK\r\nA: b\r\n c\r\nContent-Length: 0\r\n\r\n"; var h1 protocol.ResponseHeader; if _, err := parse(&h1, []byte(whole)); err != nil { fmt.Println("VCGO-NOTE whole:", err); return }; want := string(h1.Peek("A")); buf := []byte(whole); cut := len("HTTP/1.1 200 OK\r\nA: b\r\n c\r\n"); var h2 protocol.ResponseHeader; parse(&h2, buf[:cut]); h2.ResetSkipNormalize(); parse(&h2, buf); if got := string(h2.Peek("A")); got != want { fmt.Printf("VCGO-VIOLATED response header A is %q when the block arrives whole and %q when the first attempt saw only the folded line\n", want, got) }
+//@   replay-import github.com/cloudwego/hertz/pkg/protocol
 //@   ensures err == nil ==> 0 <= n && n <= len(buf)
 
 //@ func tryRead(h, r, n) err
